@@ -474,6 +474,29 @@ pub fn run_regs(out: &mut Out, seed: u64, _n: u64) {
         });
     }
 
+    // Star::write at both ends of the selector range: the offset rules are over the integers,
+    // pairs that only match modulo 2^16 are invalid.  (A SYSRET pair with ss < 8 that satisfies
+    // the rule has no representable STAR value; that corner is skipped, see DESIGN §6.3.)
+    {
+        let ends: [u64; 14] = [0, 3, 4, 7, 8, 11, 16, 19, 0xfff0, 0xfff3, 0xfff8, 0xfffb, 0xfffc, 0xffff];
+        for &cs_ret in &ends {
+            for &ss_ret in &ends {
+                for (cs_call, ss_call) in [(8u64, 16u64), (0xfff8, 0), (0xfffc, 4), (0xfff0, 0xfff8), (0, 8), (0xfff8, 0xfff0)] {
+                    if ss_ret < 8 && cs_ret as i64 - 16 == ss_ret as i64 - 8 {
+                        continue;
+                    }
+                    let q = [cs_ret, ss_ret, cs_call, ss_call];
+                    call(out, Call { api: "Star::write", reg: Reg::Msr(STAR), pre: 0x1234_0000_5678_0000, mask: 0, p: q }, || {
+                        match Star::write(SegmentSelector(q[0] as u16), SegmentSelector(q[1] as u16), SegmentSelector(q[2] as u16), SegmentSelector(q[3] as u16)) {
+                            Ok(()) => Ok(vec![]),
+                            Err(_) => Err("err"),
+                        }
+                    });
+                }
+            }
+        }
+    }
+
     // SFMASK (contents restricted to the bits RFlags models: read() unwraps from_bits)
     let rfmask = RFlags::all().bits();
     for pre in [0u64, rfmask, 0x200, 0x4_0700, r.next() & rfmask, r.next() & rfmask] {
